@@ -20,11 +20,13 @@ ENGINE = 'A'
 TECHNIQUE = ('explicit-state exploration of the real inspectors over all '
              'chunkings of hostile-field streams; retention bound evaluated in '
              'every reachable state')
-LEVEL_TEXT = ('Every stream of the family is presented to every inspector '
-              'class (and to the wrapper) under all subsets of the cut '
-              'candidates, including one giant chunk and chunks that end just '
-              'after a structure announcing a large length; the retained byte '
-              'count is evaluated in every distinct state, not only at the end.')
+LEVEL_TEXT = ('Every stream of the family (hostile length / count / offset fields and '
+'relations between them for VMDK, VHDX, qcow2, GPT, ISO; runs of repeated '
+'structures; 2 MiB text and seeded streams; valid images) is presented to every '
+'inspector class (and to the wrapper) under all subsets of the cut candidates, '
+'including one giant chunk and chunks that end just after a structure '
+'announcing a large length; the retained byte count is evaluated in every '
+'distinct state, not only at the end.')
 LEVEL_NOTE = ('Streams are bounded to ~3 MiB and to the enumerated field '
               'values; transient memory inside one eat_chunk call is not '
               'visible through context_info and is not measured.')
